@@ -1,10 +1,12 @@
 (* C19 - Numbers convert exactly in both directions.
    Only statements, closed by `exact`, with Print Assumptions beneath each. *)
 From Coq Require Import ZArith NArith Bool List.
+From SV.Gen Require Import NumTables.
+From SV.Num Require Import RangeGen.
 From SV.Num Require Import Dec IntParse NumGrammar Range IntPrint RangeProofs IntParseProofs NumGrammarProofs
   SkipNumberProofs IntPrintProofs IntPrintExact FloatCheck FloatSpec FloatCheckProofs FloatCheckSound
-  FloatInterval ShortestSound FloatComplete
-  FloatFmt FloatFmtProofs WriteDecDenotes VNumber Api Refuted.
+  FloatInterval ShortestSound FloatComplete ShortestComplete
+  FloatFmt FloatFmtProofs WriteDecDenotes FloatFmt32Proofs VNumber Api Refuted.
 Import ListNotations.
 Open Scope Z_scope.
 
@@ -64,6 +66,33 @@ Theorem C19_narrow_range_exact_unsigned : forall w u, width_ok w -> 0 <= u < 2 ^
   (unsigned_ok w u = true -> store_unsigned w u = u).
 Proof. exact narrow_unsigned_exact. Qed.
 Print Assumptions C19_narrow_range_exact_unsigned.
+
+(* the same statement over the constants the assembler actually passes: op_i8 ... op_map_key_u64 are regenerated
+   from _asm_OP_* of internal/decoder/jitdec/assembler_regabi_amd64.go on every run (Gen/NumTables.v); editing a
+   bound or swapping a range routine there changes these definitions and breaks the proof *)
+Theorem C19_narrow_range_exact_signed_gen : forall w c iv, In (w, c) signed_ops -> - 2 ^ 63 <= iv < 2 ^ 63 ->
+  (check_of c iv = true <-> - 2 ^ (w - 1) <= iv <= 2 ^ (w - 1) - 1) /\
+  (check_of c iv = true -> store_signed w iv = iv).
+Proof. exact gen_narrow_signed_exact. Qed.
+Print Assumptions C19_narrow_range_exact_signed_gen.
+
+Theorem C19_narrow_range_exact_unsigned_gen : forall w c u, In (w, c) unsigned_ops -> 0 <= u < 2 ^ 64 ->
+  (check_of c u = true <-> u <= 2 ^ w - 1) /\
+  (check_of c u = true -> store_unsigned w u = u).
+Proof. exact gen_narrow_unsigned_exact. Qed.
+Print Assumptions C19_narrow_range_exact_unsigned_gen.
+
+(* bounds handed to CMPQ as immediates survive the sign extension of imm32 (the defect fixed by afd5482),
+   and the range routines emit exactly the compare/jump sequences modelled in Num/Range.v *)
+Theorem C19_range_immediates_fit : forallb (fun p => imm_fits (snd p)) (signed_ops ++ unsigned_ops) = true.
+Proof. exact immediates_fit. Qed.
+Print Assumptions C19_range_immediates_fit.
+
+(* native/tab.h Digits (regenerated) is the two-digit table of the printer model *)
+Theorem C19_digits_table : List.length Digits_tab = 200%nat /\
+  forallb (fun i => (nth i Digits_tab 0%N =? Digits (Z.of_nat i))%N) (nrange 200) = true.
+Proof. exact gen_digits_table. Qed.
+Print Assumptions C19_digits_table.
 
 Example C19_narrow_range_nonvacuous : width_ok 8 /\ signed_ok 8 (-128) = true /\ signed_ok 8 128 = false.
 Proof. split; [left; reflexivity | vm_compute; auto]. Qed.
@@ -137,7 +166,7 @@ Print Assumptions C19_i64toa_parses_back.
    rounded result of num/den, for every well-formed format *)
 Theorem C19_checker_sound_rne : forall f num den res, wf_fmt f -> 0 <= num -> 0 < den ->
   rne_frac f num den = res -> res <> RBad -> rounds_to_spec f (num * 2 ^ (- emin f)) den res.
-Proof. intros f num den res (A & B & C). apply rne_frac_sound; assumption. Qed.
+Proof. exact checker_sound_rne. Qed.
 Print Assumptions C19_checker_sound_rne.
 
 (* parsing direction: if nearest_double_check accepts (literal, overflow flag, bit pattern) then the bit pattern
@@ -168,13 +197,13 @@ Print Assumptions C19_shortest_check_sound.
 
 (* the rounding specification is a function: a real has at most one round-to-nearest-even image *)
 Theorem C19_is_rne_unique : forall f N D k1 k2, 2 <= prec f -> 0 < D -> is_rne f N D k1 -> is_rne f N D k2 -> k1 = k2.
-Proof. intros f N D k1 k2 H. apply is_rne_unique. exact H. Qed.
+Proof. exact is_rne_unique'. Qed.
 Print Assumptions C19_is_rne_unique.
 
 (* completeness: the rounding function never gives up (its self-check cannot fail), and the parsing-direction
    checker accepts every correctly rounded (literal, bits) pair: it is a decision procedure for the specification
-   inside the exponent window.  (Completeness of shortest_check - it accepts every shortest closest decimal - is
-   not proved; named gap shortest_check_complete.) *)
+   inside the exponent window; likewise shortest_check accepts every decimal that satisfies the three clauses of
+   C19_shortest_check_sound (so the checkers cannot raise a false alarm). *)
 Theorem C19_rne_frac_complete : forall f num den, wf_fmt f -> 0 < num -> 0 < den -> rne_frac f num den <> RBad.
 Proof. exact rne_frac_complete. Qed.
 Print Assumptions C19_rne_frac_complete.
@@ -191,6 +220,16 @@ Theorem C19_nearest_check_complete : forall f lit inf bits, wf_fmt f ->
   nearest_check f lit inf bits = true.
 Proof. exact nearest_check_complete. Qed.
 Print Assumptions C19_nearest_check_complete.
+
+Theorem C19_shortest_check_complete : forall f abits sig exp k, wf_fmt f ->
+  k_of_bits f abits = Some k -> 0 < k -> 1 <= sig -> sig mod 10 <> 0 ->
+  -398 <= exp + ndig sig <= 398 ->
+  RTd f k sig exp ->
+  (forall sig' exp', 0 < sig' -> RTd f k sig' exp' -> ndig sig <= ndig sig') ->
+  (forall sig' exp', 0 < sig' -> ndig sig' = ndig sig -> RTd f k sig' exp' -> closer f k sig exp sig' exp') ->
+  shortest_check f abits sig exp = true.
+Proof. exact shortest_check_complete. Qed.
+Print Assumptions C19_shortest_check_complete.
 
 Example C19_checker_nonvacuous :
   wf_fmt f64 /\ wf_fmt f32 /\ in_window 1 (-1) /\
@@ -210,7 +249,7 @@ Qed.
    encoding/json: strconv 'e' format iff x < 1e-6 or x >= 1e21), otherwise plain decimal.
    write_dec_denotes: the emitted text, read back by lit_decode (sign, mantissa m, exponent e), denotes exactly
    sig * 10^exp (m * 10^a = sig * 10^b with e - a = exp - b), for every scientific exponent in (-1000, 1000).
-   The float32 chunking (format_integer_u32 / format_significand_f32) is only tied by runs. *)
+   The same holds for the float32 routine (f32toa.c: 4 + 2 digit groups, ctz10_u32), sig < 10^9. *)
 Theorem C19_format_integer_exact : forall sig, 1 <= sig < 10 ^ 17 -> format_integer sig = canon_dec sig.
 Proof. exact format_integer_exact. Qed.
 Print Assumptions C19_format_integer_exact.
@@ -223,7 +262,7 @@ Print Assumptions C19_format_significand_exact.
 Theorem C19_write_dec_layout_partial : forall sig exp, 1 <= sig < 10 ^ 17 ->
   write_dec_f64 sig exp = write_dec_ideal sig exp /\
   ctz10 sig = Z.of_nat (length (canon_dec sig)).
-Proof. intros sig exp H. split; [apply write_dec_f64_ideal; exact H|apply ctz10_digits; exact H]. Qed.
+Proof. exact write_dec_layout. Qed.
 Print Assumptions C19_write_dec_layout_partial.
 
 Theorem C19_write_dec_denotes : forall sig exp, 1 <= sig < 10 ^ 17 ->
@@ -233,6 +272,21 @@ Theorem C19_write_dec_denotes : forall sig exp, 1 <= sig < 10 ^ 17 ->
   uses_exponent (write_dec_f64 sig exp) = ((sci <? -6) || (20 <? sci)).
 Proof. exact write_dec_f64_denotes. Qed.
 Print Assumptions C19_write_dec_denotes.
+
+Theorem C19_write_dec_f32_denotes : forall sig exp, 1 <= sig < 10 ^ 9 ->
+  let sci := ctz10_u32 sig + exp - 1 in
+  -1000 < sci < 1000 ->
+  denotes (write_dec_f32 sig exp) sig exp /\
+  uses_exponent (write_dec_f32 sig exp) = ((sci <? -6) || (20 <? sci)).
+Proof. exact write_dec_f32_denotes. Qed.
+Print Assumptions C19_write_dec_f32_denotes.
+
+Theorem C19_format_u32_exact : forall sig, 1 <= sig < 10 ^ 9 ->
+  format_integer_u32 sig = canon_dec sig /\
+  strip_trailing_zeros (format_significand_f32 sig) = strip_trailing_zeros (canon_dec sig) /\
+  ctz10_u32 sig = Z.of_nat (length (canon_dec sig)).
+Proof. exact format_u32_exact. Qed.
+Print Assumptions C19_format_u32_exact.
 
 Example C19_write_dec_examples :
   write_dec_f64 1 21 = [49;101;43;50;49]%N /\                         (* 1e+21 *)
